@@ -17,14 +17,14 @@ type Anchors struct {
 	err []string
 
 	Template, TemplateSet, ExecCtx, Value, Error, Token, Parser, Context, Options *types.Named
-	INode, IEvaluator, TemplateLoader, TemplateWriter                          *types.Interface
+	INode, IEvaluator, TemplateLoader, TemplateWriter                             *types.Interface
 
-	ExecEntries    []*ssa.Function // exported methods of *Template taking a Context
-	ExecCore       *ssa.Function   // the unexported funnel (*Template).execute
-	CompileEntries []*ssa.Function // exported methods of *TemplateSet returning *Template (+ Render*)
-	NewTemplate    *ssa.Function   // the only constructor of Template
-	FilterRegistry *ssa.Global     // map[string]FilterFunction
-	TagRegistry    *ssa.Global     // map[string]*tag
+	ExecEntries    []*ssa.Function          // exported methods of *Template taking a Context
+	ExecCore       *ssa.Function            // the unexported funnel (*Template).execute
+	CompileEntries []*ssa.Function          // exported methods of *TemplateSet returning *Template (+ Render*)
+	NewTemplate    *ssa.Function            // the only constructor of Template
+	FilterRegistry *ssa.Global              // map[string]FilterFunction
+	TagRegistry    *ssa.Global              // map[string]*tag
 	FilterFuncs    map[string]*ssa.Function // registered name -> function (static extraction)
 	TagParsers     map[string]*ssa.Function
 	NodeTypes      []*types.Named // implementers of INode
